@@ -464,4 +464,61 @@ func gen(seed uint64, tier string) {
 			fmt.Fprintln(out, docLine(k, runs/4, r.U64()%1000000, objs))
 		}
 	}
+	// documents that REPEAT an id (`d` lines; Dup.lean): what is stored is the first element of the id that is selected
+	// or requested while the id is not yet stored; Spec = ClosedD + inside the closure + a stored object is an element
+	for _, c := range dupCorpus {
+		for _, k := range []string{"tags:1=1", "all", "bounds:0,0,2,2"} {
+			fmt.Fprintf(out, "d %s | %s\n", k, c)
+		}
+	}
+	ndup := ndocs / 5
+	for i := 0; i < ndup; i++ {
+		g.lo, g.hi = 0, 4
+		objs := g.doc(5+r.Intn(25), i%5 == 4)
+		for j, nd := 0, 1+r.Intn(3); j < nd; j++ {
+			src := objs[r.Intn(len(objs))]
+			if src.kind == 'B' || src.kind == 'N' || src.kind == 'U' {
+				continue
+			}
+			cp := src
+			cp.refs = append([]ref{}, src.refs...)
+			switch r.Intn(4) {
+			case 0: // another reference list
+				if len(cp.refs) > 0 {
+					cp.refs = cp.refs[:len(cp.refs)-1]
+				}
+				if cp.kind != 'n' {
+					cp.refs = append(cp.refs, ref{'n', int64(1 + r.Intn(12))})
+				}
+			case 1: // other tags
+				cp.tags = [][2]int{{1, 1}}
+				if len(src.tags) > 0 {
+					cp.tags = nil
+				}
+			case 2: // another position
+				cp.x, cp.y = r.Intn(5), r.Intn(5)
+			}
+			at := r.Intn(len(objs) + 1)
+			objs = append(objs[:at], append([]obj{cp}, objs[at:]...)...)
+		}
+		k := []string{g.boundsTok(), tagKeeps[r.Intn(len(tagKeeps))], "all"}[i%3]
+		fmt.Fprintf(out, "d %s | %s\n", k, objsTok(objs))
+	}
+}
+
+// hand-written documents with repeated ids
+var dupCorpus = []string{
+	// two tagged ways with id 1 and different node lists: the first is stored, only its node is followed
+	"w1:1:1=1 w1:2:1=1 n1:1,1:- n2:1,1:-",
+	// the first version is not selected, the second is
+	"w1:1:- w1:2:1=1 n1:1,1:- n2:1,1:-",
+	// a requested id: the first version read in the second pass is stored
+	"r1:w1:1=1 n1:1,1:- n2:5,5:- w1:2:- w1:1:-",
+	// node repeated inside and outside the bounds
+	"n1:1,1:- n1:5,5:- w1:1:-",
+	"n1:5,5:- n1:1,1:- w1:1:-",
+	// repeated relation with different member types, nested
+	"n1:1,1:1=1 w1:1:- r1:n1:1=1 r1:w1:1=1 r2:r1:-",
+	// identical copies
+	"n1:1,1:1=1 n1:1,1:1=1 w1:1:1=1 w1:1:1=1",
 }
